@@ -55,6 +55,7 @@ theorem applySmooth_perm (J : K) (a : Atom K) {f g : ExpPoly K} (h : f ~ g) :
   | tpow k => exact iter_tmul_perm k h
   | lin a b => exact Perm.append (smul_perm a (tmul_perm h)) (smul_perm b h)
   | exp a => exact expWeight_perm E a h
+  | expb a b => exact smul_perm _ (expWeight_perm E a h)
   | trig c w ph =>
     cases c <;> exact Perm.append (smul_perm _ (expWeight_perm E _ h)) (smul_perm _ (expWeight_perm E _ h))
   | hyp c a =>
@@ -69,6 +70,7 @@ theorem applySmooth_append (J : K) (a : Atom K) (f g : ExpPoly K) :
   | tpow k => simp [applySmooth, iter_tmul_append]
   | lin a b => simp only [applySmooth, tmul_append, smul_append]; exact append4_perm _ _ _ _
   | exp a => simp [applySmooth, expWeight_append]
+  | expb a b => simp [applySmooth, expWeight_append, smul_append]
   | trig c w ph =>
     cases c <;> (simp only [applySmooth, expWeight_append, smul_append]; exact append4_perm _ _ _ _)
   | hyp c a =>
